@@ -3,13 +3,16 @@ package main
 import (
 	"bufio"
 	"bytes"
+	"context"
 	"encoding/hex"
 	"fmt"
 	"hash/fnv"
 	"math"
 	"os"
+	"os/exec"
 	"sort"
 	"strings"
+	"syscall"
 	"time"
 
 	"github.com/squadracorsepolito/acmelib"
@@ -178,7 +181,7 @@ type mutation struct {
 }
 
 // mutations that need a multiplexer apply to few sites: they are tried more often
-var mutationWeight = map[string]int{"mux-groups": 4, "nested-name-clash": 3, "deep-name-clash": 4, "group-count-boundary": 4, "cross-mux-ref": 4, "retarget-id": 3}
+var mutationWeight = map[string]int{"mux-groups": 4, "nested-name-clash": 3, "deep-name-clash": 4, "group-count-boundary": 4, "cross-mux-ref": 4, "retarget-id": 3, "size-fields": 4}
 
 func pickMutation(r *rng) mutation {
 	total := 0
@@ -422,9 +425,6 @@ var mutations = []mutation{
 		}
 		i := r.below(len(s.u32))
 		v := u32Pool[r.below(len(u32Pool))]
-		if (s.u32Names[i] == "group_count" || s.u32Names[i] == "interface_count") && v > 65536 {
-			v = 65536 // eager allocation: stated assumption
-		}
 		*s.u32[i] = v
 		return fmt.Sprintf("%s set to %d", s.u32Names[i], v)
 	}},
@@ -689,6 +689,80 @@ var mutations = []mutation{
 			return fmt.Sprintf("signal at depth %d of a multiplexer tree renamed to the name of a signal at depth %d of the same tree", a.depth, b.depth)
 		}
 		return ""
+	}},
+	{"size-fields", func(r *rng, n *pb.Network, s *sites) string {
+		// huge size / count fields, alone and jointly (message size with the size of a type used in it, group
+		// size with group count, interface count): whatever the loader allocates from them before it checks them
+		big := []uint32{9, 64, 65, 1 << 16, 1<<16 + 1, 1 << 24, 1 << 29, 1<<31 - 1, 1 << 31, math.MaxUint32}
+		pick := func() uint32 { return big[r.below(len(big))] }
+		done := []string{}
+		k := 1 + r.below(3)
+		for t := 0; t < 12 && len(done) < k; t++ {
+			switch r.below(7) {
+			case 0:
+				if len(s.msgs) > 0 {
+					m := s.msgs[r.below(len(s.msgs))]
+					m.SizeByte = pick()
+					done = append(done, fmt.Sprintf("size_byte=%d", m.SizeByte))
+					// ... and the type of one of its standard signals
+					if r.chance(70) {
+						for _, x := range m.Signals {
+							if st := x.GetStandard(); st != nil {
+								for _, ty := range n.SignalTypes {
+									if ty.GetEntity().GetEntityId() == st.TypeEntityId {
+										ty.Size = pick()
+										done = append(done, fmt.Sprintf("type.size=%d (used in that message)", ty.Size))
+									}
+								}
+								break
+							}
+						}
+					}
+				}
+			case 1:
+				if len(n.SignalTypes) > 0 {
+					ty := n.SignalTypes[r.below(len(n.SignalTypes))]
+					ty.Size = pick()
+					done = append(done, fmt.Sprintf("type.size=%d", ty.Size))
+				}
+			case 2:
+				if len(n.SignalEnums) > 0 {
+					e := n.SignalEnums[r.below(len(n.SignalEnums))]
+					e.MinSize = pick()
+					done = append(done, fmt.Sprintf("enum.min_size=%d", e.MinSize))
+				}
+			case 3:
+				if len(s.muxes) > 0 {
+					m := s.muxes[r.below(len(s.muxes))]
+					m.GroupSize = pick()
+					done = append(done, fmt.Sprintf("group_size=%d", m.GroupSize))
+				}
+			case 4:
+				if len(s.muxes) > 0 {
+					m := s.muxes[r.below(len(s.muxes))]
+					m.GroupCount = pick()
+					done = append(done, fmt.Sprintf("group_count=%d", m.GroupCount))
+				}
+			case 5:
+				if len(n.Nodes) > 0 {
+					nd := n.Nodes[r.below(len(n.Nodes))]
+					nd.InterfaceCount = pick()
+					done = append(done, fmt.Sprintf("interface_count=%d", nd.InterfaceCount))
+				}
+			case 6:
+				if len(s.payloads) > 0 {
+					p := s.payloads[r.below(len(s.payloads))]
+					if len(p.Refs) > 0 {
+						p.Refs[r.below(len(p.Refs))].RelStartBit = pick()
+						done = append(done, "rel_start_bit huge")
+					}
+				}
+			}
+		}
+		if len(done) == 0 {
+			return ""
+		}
+		return strings.Join(done, ", ")
 	}},
 	{"cross-mux-ref", func(r *rng, n *pb.Network, s *sites) string {
 		// a group ref of one multiplexer names a signal held by ANOTHER multiplexer of the file
@@ -1106,6 +1180,194 @@ func clause(s string) string {
 }
 
 // ------------------------------------------------------------------------------------------
+// isolation of inputs with huge size / count fields
+// ------------------------------------------------------------------------------------------
+
+// maxSizeField is the largest size or count field of a tree: what the loader may allocate from.
+func maxSizeField(n *pb.Network) uint32 {
+	mx := maxCounts(n)
+	up := func(v uint32) {
+		if v > mx {
+			mx = v
+		}
+	}
+	for _, t := range n.SignalTypes {
+		up(t.Size)
+	}
+	for _, e := range n.SignalEnums {
+		up(e.MinSize)
+	}
+	var walk func(s *pb.Signal)
+	walk = func(s *pb.Signal) {
+		if m := s.GetMultiplexer(); m != nil {
+			up(m.GroupSize)
+			up(uint32(len(m.Groups)))
+			for _, c := range m.Signals {
+				walk(c)
+			}
+		}
+	}
+	for _, b := range n.Buses {
+		for _, ni := range b.NodeInterfaces {
+			for _, m := range ni.Messages {
+				up(m.SizeByte)
+				for _, sg := range m.Signals {
+					walk(sg)
+				}
+			}
+		}
+	}
+	return mx
+}
+
+// hugeFieldsKey names the kinds of size / count fields above 2^16 in a tree.
+func hugeFieldsKey(n *pb.Network) string {
+	set := map[string]bool{}
+	mark := func(name string, v uint32) {
+		if v > 1<<16 {
+			set[name] = true
+		}
+	}
+	for _, nd := range n.Nodes {
+		mark("interface_count", nd.InterfaceCount)
+	}
+	for _, t := range n.SignalTypes {
+		mark("type.size", t.Size)
+	}
+	for _, e := range n.SignalEnums {
+		mark("min_size", e.MinSize)
+	}
+	var walk func(s *pb.Signal)
+	walk = func(s *pb.Signal) {
+		if m := s.GetMultiplexer(); m != nil {
+			mark("group_size", m.GroupSize)
+			mark("group_count", m.GroupCount)
+			mark("groups", uint32(len(m.Groups)))
+			for _, c := range m.Signals {
+				walk(c)
+			}
+		}
+	}
+	for _, b := range n.Buses {
+		for _, ni := range b.NodeInterfaces {
+			for _, m := range ni.Messages {
+				mark("size_byte", m.SizeByte)
+				for _, sg := range m.Signals {
+					walk(sg)
+				}
+			}
+		}
+	}
+	keys := []string{}
+	for k := range set {
+		keys = append(keys, k)
+	}
+	sort.Strings(keys)
+	return strings.Join(keys, "+")
+}
+
+// isolatedOutcome is what a one-shot child (mode c13one) reported, or how it died.
+type isolatedOutcome struct {
+	class string // "error", "ok", "panic", "hang", "fatal"
+	site  string
+	msg   string
+}
+
+func runIsolated(dir string, in c13Input, watchdog time.Duration) isolatedOutcome {
+	tmp := dir + ".one"
+	if err := os.WriteFile(tmp, in.data, 0o600); err != nil {
+		return isolatedOutcome{class: "fatal", site: "harness", msg: err.Error()}
+	}
+	defer os.Remove(tmp)
+	ctx, cancel := context.WithTimeout(context.Background(), watchdog+15*time.Second)
+	defer cancel()
+	cmd := exec.CommandContext(ctx, os.Args[0], "c13one", encNames[in.enc], tmp)
+	cmd.Env = append(os.Environ(), "VERIF_WATCHDOG_S="+fmt.Sprint(int(watchdog/time.Second)))
+	outb, err := cmd.CombinedOutput()
+	text := string(outb)
+	for _, line := range strings.Split(text, "\n") {
+		if strings.HasPrefix(line, "OUTCOME ") {
+			f := strings.SplitN(line, " ", 4)
+			o := isolatedOutcome{class: f[1]}
+			if len(f) > 2 {
+				o.site = f[2]
+			}
+			if len(f) > 3 {
+				o.msg = f[3]
+			}
+			return o
+		}
+	}
+	// no outcome line: the child died
+	o := isolatedOutcome{class: "fatal", site: "unknown", msg: "exit: " + fmt.Sprint(err)}
+	if ctx.Err() != nil {
+		o.msg = "killed after " + fmt.Sprint(watchdog+15*time.Second)
+		o.class = "hang"
+	}
+	for _, line := range strings.Split(text, "\n") {
+		if strings.HasPrefix(line, "fatal error: ") || strings.HasPrefix(line, "runtime: out of memory") {
+			o.msg = line
+			break
+		}
+	}
+	// the acmelib function the loader called when the process died: the frame just below the first loader frame
+	frames := []string{}
+	for _, line := range strings.Split(text, "\n") {
+		if i := strings.Index(line, "squadracorsepolito/acmelib."); i >= 0 && !strings.Contains(line, "/proto/") && !strings.HasPrefix(line, "\t") {
+			fn := line[i+len("squadracorsepolito/acmelib."):]
+			if j := strings.LastIndex(fn, "("); j > 0 {
+				fn = fn[:j]
+			}
+			frames = append(frames, fn)
+		}
+	}
+	for i, fn := range frames {
+		if strings.HasPrefix(fn, "(*loader).") {
+			if i > 0 {
+				o.site = frames[i-1]
+			} else {
+				o.site = fn
+			}
+			break
+		}
+	}
+	return o
+}
+
+// runC13One is the one-shot child: load one input, print the outcome class.  It lowers its own
+// address-space limit to 1.5 GiB: whatever needs more for a few kilobytes of input is reported.
+func runC13One(encName, path string) {
+	lim := syscall.Rlimit{Cur: 1536 << 20, Max: 1536 << 20}
+	var cur syscall.Rlimit
+	if syscall.Getrlimit(syscall.RLIMIT_AS, &cur) == nil && (cur.Cur == ^uint64(0) || cur.Cur > lim.Cur) {
+		lim.Max = cur.Max
+		syscall.Setrlimit(syscall.RLIMIT_AS, &lim)
+	}
+	data, err := os.ReadFile(path)
+	if err != nil {
+		fmt.Println("OUTCOME fatal harness", err)
+		return
+	}
+	var enc acmelib.SaveEncoding
+	for e, nme := range encNames {
+		if nme == encName {
+			enc = e
+		}
+	}
+	o := guardedLoad(data, enc, time.Duration(envInt("VERIF_WATCHDOG_S", 20))*time.Second)
+	switch {
+	case o.panicV != nil:
+		fmt.Printf("OUTCOME panic %s %v\n", o.stack, o.panicV)
+	case o.hang:
+		fmt.Println("OUTCOME hang - -")
+	case o.err != nil:
+		fmt.Printf("OUTCOME error %s -\n", errClass(o.err))
+	default:
+		fmt.Println("OUTCOME ok - -")
+	}
+}
+
+// ------------------------------------------------------------------------------------------
 // runner
 // ------------------------------------------------------------------------------------------
 
@@ -1130,9 +1392,36 @@ func runC13(seed uint64, ncases int, outPath string, replay string) {
 	seen := map[uint64]bool{}
 	master := &rng{s: seed ^ 0xC13C13}
 
+	skipUntil := os.Getenv("VERIF_SKIP_UNTIL") // "<case id> <encoding>": resume after the input that killed the previous child
+	skipping := skipUntil != ""
+	budget := time.Duration(envInt("VERIF_BUDGET_S", 100000)) * time.Second
+	watchdog := time.Duration(envInt("VERIF_WATCHDOG_S", 20)) * time.Second
+	started := time.Now()
+	overBudget := func() bool {
+		if time.Since(started) > budget {
+			st.hist["budget-exhausted"] = 1
+			return true
+		}
+		return false
+	}
+	fatalByFields := map[string]int{}
 	evaluate := func(in c13Input) {
-		st.evaluations++
 		eid := encNames[in.enc]
+		if skipping {
+			if in.id+" "+eid == skipUntil {
+				skipping = false
+			}
+			st.hist["skipped-before-resume"]++
+			return
+		}
+		if overBudget() {
+			return
+		}
+		st.evaluations++
+		out.Flush()
+		if st.evaluations%200 == 0 {
+			writeSummary(outPath+".partial", st)
+		}
 		hsh := fnv.New64a()
 		hsh.Write([]byte(eid))
 		hsh.Write(in.data)
@@ -1142,17 +1431,53 @@ func runC13(seed uint64, ncases int, outPath string, replay string) {
 		// the input is logged before the call: a process death is attributed to it (one line, overwritten)
 		progress.Seek(0, 0)
 		progress.Truncate(0)
-		fmt.Fprintf(progress, "%s %s %s\n", in.id, eid, hex.EncodeToString(in.data))
+		fmt.Fprintf(progress, "%s %s %s %s\n", in.id, eid, hex.EncodeToString(in.data), strings.ReplaceAll(in.descr, "\n", " "))
+		progress.Sync()
 		replayObj := fmt.Sprintf("%s %s", eid, hex.EncodeToString(in.data))
 		tree, uerr := unmarshalAs(in.data, in.enc)
-		if uerr == nil {
-			if mc := maxCounts(tree); mc > 65536 {
-				st.hist["skipped-count-above-2^16"]++
+		size := len(in.data)
+		if uerr == nil && maxSizeField(tree) > 1<<16 {
+			// whatever the loader allocates from a huge size / count field happens in a one-shot child
+			// (memory limit inherited): a fatal error there is an outcome, not the end of the run
+			hk := hugeFieldsKey(tree)
+			if fatalByFields[hk] >= 2 {
+				st.hist["isolated-skipped-same-huge-fields-already-fatal-twice"]++
 				return
 			}
+			st.hist["isolated-huge-size-field"]++
+			iso := runIsolated(outPath, in, watchdog)
+			if iso.class == "fatal" || iso.class == "hang" {
+				fatalByFields[hk]++
+			}
+			switch iso.class {
+			case "error":
+				st.hist["outcome-error"]++
+				st.hist["error-"+iso.site]++
+				fmt.Fprintf(out, "P %s %s %s\n", in.id, eid, dumpPNet(tree).String())
+				fmt.Fprintf(out, "L %s %s (err)\n", in.id, eid)
+				if fresh {
+					st.nontrivial++
+				}
+			case "ok":
+				st.hist["outcome-ok"]++
+				st.hist["outcome-ok-huge-count-not-projected"]++
+			case "panic":
+				st.hist["outcome-PANIC"]++
+				st.fail("c13-panic@"+iso.site+":isolated", fmt.Sprintf("LoadNetwork(%s) panics: %s in %s; input: %s", eid, iso.msg, iso.site, in.descr), size, replayObj)
+			case "hang":
+				st.hist["outcome-HANG"]++
+				st.fail("c13-hang", fmt.Sprintf("LoadNetwork(%s) did not return (%s); input: %s", eid, iso.msg, in.descr), size, replayObj)
+			default:
+				st.hist["outcome-FATAL"]++
+				kind := "fatal"
+				if strings.Contains(iso.msg, "out of memory") || strings.Contains(iso.msg, "cannot allocate") {
+					kind = "out-of-memory"
+				}
+				st.fail("c13-fatal@"+iso.site+":"+kind, fmt.Sprintf("LoadNetwork(%s) brings the process down (%s) in %s under a 4 GiB address-space limit; input (%d bytes): %s", eid, iso.msg, iso.site, size, in.descr), size, replayObj)
+			}
+			return
 		}
-		o := guardedLoad(in.data, in.enc, 20*time.Second)
-		size := len(in.data)
+		o := guardedLoad(in.data, in.enc, watchdog)
 		switch {
 		case o.panicV != nil:
 			st.hist["outcome-PANIC"]++
@@ -1166,7 +1491,7 @@ func runC13(seed uint64, ncases int, outPath string, replay string) {
 			st.fail("c13-panic@"+o.stack+":"+cls, fmt.Sprintf("LoadNetwork(%s) panics: %v in %s; input: %s", eid, o.panicV, o.stack, in.descr), size, replayObj)
 		case o.hang:
 			st.hist["outcome-HANG"]++
-			st.fail("c13-hang", fmt.Sprintf("LoadNetwork(%s) did not return within 20 s; input: %s", eid, in.descr), size, replayObj)
+			st.fail("c13-hang", fmt.Sprintf("LoadNetwork(%s) did not return within %v; input: %s", eid, watchdog, in.descr), size, replayObj)
 		case o.err != nil:
 			st.hist["outcome-error"]++
 			st.hist["error-"+errClass(o.err)]++
@@ -1174,6 +1499,10 @@ func runC13(seed uint64, ncases int, outPath string, replay string) {
 			st.hist["outcome-ok"]++
 			if uerr != nil {
 				st.fail("c13-accepts-undecodable", fmt.Sprintf("LoadNetwork(%s) succeeds on bytes the decoder rejects (%v)", eid, uerr), size, replayObj)
+			}
+			if tree != nil && maxCounts(tree) > 1<<16 {
+				st.hist["outcome-ok-huge-count-not-projected"]++
+				return
 			}
 			broken, pan := invariants(o.net)
 			if pan != "" {
@@ -1202,7 +1531,7 @@ func runC13(seed uint64, ncases int, outPath string, replay string) {
 			if o.err != nil {
 				fmt.Fprintf(out, "L %s %s (err)\n", in.id, eid)
 			} else {
-				gotSX, _ := dumpNet(o.net)
+				gotSX, _ := dumpLoadedNet(o.net)
 				fmt.Fprintf(out, "L %s %s (ok %s)\n", in.id, eid, gotSX.String())
 			}
 		}
@@ -1258,6 +1587,9 @@ func runC13(seed uint64, ncases int, outPath string, replay string) {
 	// ---- tree-level mutations, each written in the three encodings
 	for ci := 0; ci < treeCases; ci++ {
 		r := &rng{s: master.next()}
+		if !skipping && overBudget() {
+			break
+		}
 		base := bases[r.below(len(bases))]
 		tree := proto.Clone(base).(*pb.Network)
 		k := 1
@@ -1302,6 +1634,9 @@ func runC13(seed uint64, ncases int, outPath string, replay string) {
 	// ---- byte / character level mutations and random bytes
 	for ci := 0; ci < byteCases; ci++ {
 		r := &rng{s: master.next()}
+		if !skipping && overBudget() {
+			break
+		}
 		ei := r.below(3)
 		enc := encList[ei]
 		id := fmt.Sprintf("b%d", ci)
